@@ -123,3 +123,12 @@ pub fn table_row(f: &[&str]) -> String {
     }
     out.trim_end().to_owned()
 }
+
+pub fn dispatch(kind: &str, f: &[&str]) -> Option<String> {
+    Some(match kind {
+        "tbl" => table_row(f),
+        "c02" => events(f),
+        "c02after" => events_after(f),
+        _ => return None,
+    })
+}
